@@ -4,6 +4,7 @@ import MindsVerif.Gen.TSCfg
 
 plan line : `P <nG> <window> <o><g><h><f> <limit|-> <W|->`
    ->  `planning` | `crash` | `ok part=<W|-|none> sels=<W>@<lim|->;… otf=<W|-> limit=<n|->`
+dbt  line : `D <nG> <window> <inner o g h f> <inner limit|-> <outer limit|-> <inner W|-> | <outer W|->` -> as plan line
 eval line : `E|F <p0,p1,…|-> <t,g0,g1;…|-> <limit|-> <W>`   (values: integer or `n` for NULL; F = executor
             fills `$var[col]` null-safely, E = plain SQL equality)
    ->  rows returned by `evalSel`, `t,g0,g1;…`  (or `-` when empty)
@@ -114,8 +115,23 @@ def handleE : List String → String
     | _, _, _, _ => "bad-line"
   | _ => "bad-line"
 
+/-- `D <nG> <window> <inner o g h f> <inner limit|-> <outer limit|-> <inner W|-> | <outer W|->` : the dbt form -/
+def handleD : List String → String
+  | nG :: win :: flags :: ilim :: olim :: rest =>
+    let (iw, ow) := (rest.takeWhile (· ≠ "|"), (rest.dropWhile (· ≠ "|")).drop 1)
+    let lim? (s : String) : Option (Option Nat) := if s == "-" then some none else s.toNat?.map some
+    match nG.toNat?, win.toNat?, readOptW iw, readOptW ow, flags.toList, lim? ilim, lim? olim with
+    | some nG, some win, some iw, some ow, [o, g, h, f], some il, some ol =>
+      let inner : Query Int := { whereC := iw, orderBy := o == '1', groupBy := g == '1', having := h == '1',
+                                 offset := f == '1', limit := il }
+      let outer : Query Int := { whereC := ow, limit := ol }
+      showRes (planDbt MindsVerif.Gen.TSCfg.live ⟨nG, win⟩ outer inner)
+    | _, _, _, _, _, _, _ => "bad-line"
+  | _ => "bad-line"
+
 def handle (line : String) : String :=
   match tokens line.trimAscii.toString with
+  | "D" :: rest => handleD rest
   | pc :: nG :: win :: flags :: lim :: rest =>
     -- `P`: the variant probed on the live code (`Gen.TSCfg.live`; Props/C15 obliges it to be `Cfg.pinned`);
     -- `P00` / `P10` / `P01` / `P11`: an explicit variant (deepValidate, normalizeTF), for experiments only
